@@ -18,6 +18,7 @@ EXPLANATION = (
     "response classes are frozen dataclasses; R4 foreign datagrams: match() false returns before decode, DecodeError is caught, only instances of"
     " the response type are forwarded; R5 factory.discover maps each response class to the client of its generation with port 9004/9005 and the "
     "response's host/id/serial(/name). Arrival timing is not decided."
+    " Added later: match() is decided on witness datagrams in the vendor format (commas in the name, empty and non-ASCII names) propagated through the source by the checker's interpreter; the search loop's condition is evaluated for an empty and a non-empty response set while the counter runs."
 )
 ASSUMPTIONS = ["vendor discovery formats: AT4 'IP,MAC,AirTouch4,ID' on UDP 49004 (reverse engineered), AT5 'IP,ConsoleID,AirTouch5,AirTouchID,Name' on UDP 49005 (protocol v1.2 p.13)"]
 FLOORS = {"C18.R1": 8, "C18.R2": 14, "C18.R3": 3, "C18.R4": 4, "C18.R5": 6}
